@@ -194,7 +194,7 @@ class TokHooks(SelfHooks):
                 return (A.TOP, A.TOP)
             state.env['__drawn'] = True
             return (self.code, A.Sym('char', attrs={'distinct': True}))
-        if fname in ('context.get_let', 'self.context.get_let') and len(args) == 1:
+        if fname.endswith('context.get_let') and len(args) == 1:
             return args[0]          # identity summary: no \let alias in force
         return None
 
@@ -240,6 +240,7 @@ def run_cell(m, fn, cls, body_env, consts, state_name, code, nexts):
         tr = s.trace
         ys = [e for e in tr if e[0] == 'yield']
         pushed = [e for e in tr if e[0] == 'call' and e[1] in ('pushChar', 'self.pushChar')]
+        readline = any(e[0] == 'call' and e[1].endswith('readline') for e in tr)
         readline = any(e[0] == 'call' and e[1].endswith('readline') for e in tr)
         st = s.env.get('self.state', A.TOP)
         stn = {repr(consts['STATE_' + x]): x for x in 'NMS'}.get(repr(st), '?')
@@ -355,39 +356,60 @@ def _fmt(cells):
 
 
 # ---------------------------------------------------------------------------
-class ReadHooks(SelfHooks):
-    """Character reader: every raw read may return the empty string."""
+class ReadInterp(A.Interp):
+    """ord(<raw read>) is tracked symbolically so that the ^^X arithmetic can be read off."""
 
-    def __init__(self, model, cls, script=None):
+    def ev_BinOp(self, n, s):
+        a, b = self.ev(n.left, s), self.ev(n.right, s)
+        if isinstance(a, A.Sym) and a.label == 'ORD' and isinstance(b, int) and isinstance(n.op, (ast.Add, ast.Sub, ast.BitXor)):
+            return A.Sym('ORD%s%d' % ({ast.Add: '+', ast.Sub: '-', ast.BitXor: '^'}[type(n.op)], b))
+        return A.Interp.ev_BinOp(self, n, s)
+
+    def ev_IfExp(self, n, s):
+        forced = self.h.decide(self, n.test, s)
+        if forced is not None:
+            return self.ev(n.body if forced else n.orelse, s)
+        return A.Interp.ev_IfExp(self, n, s)
+
+
+class ReadHooks(SelfHooks):
+    """Character reader.  Roles are recognised by what a name aliases (canonical callee names), not by
+    how locals are spelled: raw reads are self.read(1) and self._charBuffer.pop(0); the category
+    lookup is self.context.whichCode."""
+
+    def __init__(self, model, cls, reads=None, codes=None, high=None):
         SelfHooks.__init__(self, model, cls)
         self.bad = []
-        self.n = 0
-        self.script = script or {}
+        self.reads = reads          # labels for successive raw reads (same label = same character)
+        self.codes = codes          # category codes answered by successive whichCode calls
+        self.high = high            # selector for "ord(c) >= 64"
+        self.raw_reads = True
 
     def lookup(self, interp, name, state):
-        if name in ('self._charBuffer',):
-            return A.Sym('charbuffer')
+        if name == 'self._charBuffer':
+            return A.Sym('charbuffer')          # truthiness unknown: both the buffer and the source are read
         if name in ('self.read', 'self.context.whichCode'):
             return A.Sym(name)
         return SelfHooks.lookup(self, interp, name, state)
 
-    def is_read(self, fname, args):
-        return fname in ('read', 'self.read', '_read1') or fname.endswith('.pop') and fname.split('.')[0] in ('mybuffer',)
-
     def call(self, interp, node, fname, args, kwargs, state):
-        if self.is_read(fname, args):
+        if self.raw_reads and fname in ('self.read', 'self._charBuffer.pop', 'self.source.read'):
             k = state.env.get('__reads', 0)
             state.env['__reads'] = k + 1
-            lab = self.script.get(k, 'read%d@%d' % (k, node.lineno))
-            return A.Sym(lab, truthy=None, attrs={'raw': True, 'distinct': False})
+            lab = self.reads[k] if self.reads and k < len(self.reads) else 'read%d@%d' % (k, node.lineno)
+            # without a script nothing is known about the character (it may be the empty string at end of input)
+            return A.Sym(lab, truthy=True if self.reads else None, attrs={'raw': True, 'distinct': bool(self.reads)})
         if fname in ('ord', 'chr') and len(args) == 1:
             a = args[0]
             if isinstance(a, A.Sym) and a.attrs.get('raw') and a.truthy is not True:
                 self.bad.append((fname, text(node), node.lineno))
             if fname == 'ord' and isinstance(a, A.Sym):
-                return A.Sym('ord(%s)' % a.label)
+                return A.Sym('ORD')
+            if fname == 'chr' and isinstance(a, A.Sym):
+                state.env['__chr'] = state.env.get('__chr', ()) + (a.label,)
+                return A.Sym('CHR(%s)' % a.label, truthy=True, attrs={'distinct': True})
             return None
-        if fname in ('whichCode',) and len(args) == 1:
+        if fname == 'self.context.whichCode' and len(args) == 1:
             k = state.env.get('__codes', 0)
             state.env['__codes'] = k + 1
             if self.codes is not None and k < len(self.codes):
@@ -395,31 +417,40 @@ class ReadHooks(SelfHooks):
             return A.TOP
         return None
 
-    codes = None
+    def decide(self, interp, test, state):
+        if self.high is not None and isinstance(test, ast.Compare) and len(test.ops) == 1:
+            l = interp.ev(test.left, state)
+            r = interp.ev(test.comparators[0], state)
+            if isinstance(l, A.Sym) and l.label == 'ORD' and isinstance(r, int):
+                op = type(test.ops[0])
+                if (op, r) in ((ast.GtE, 64), (ast.Gt, 63)):
+                    return self.high
+                if (op, r) in ((ast.Lt, 64), (ast.LtE, 63)):
+                    return not self.high
+                raise AnalysisError('^^ decoding compares the character code with %s %d: unexpected threshold' % (op.__name__, r))
+        return None
 
 
 def r14_r15(chk, m, Tokenizer):
     R5 = chk.rule('R1.5', 'no ord()/chr() on the result of a raw read that may be empty '
                   '(end of input) - tokenizing terminates without raising', 3)
-    fns = [f for f in Tokenizer.methods.values()]
     n_calls = 0
-    for fn in sorted(fns, key=lambda f: f.name):
-        uses = [c for c in M.calls_in(fn.node) if M.call_name(c) in ('ord', 'chr')]
+    for fn in sorted(Tokenizer.methods.values(), key=lambda f: f.name):
+        uses = [c for c in ast.walk(fn.node) if isinstance(c, ast.Call) and M.call_name(c) in ('ord', 'chr')]
         if not uses:
             continue
         chk.analysed(fn)
         hooks = ReadHooks(m, Tokenizer)
-        it = A.Interp(model=m, scope=fn, hooks=hooks, max_iter=2, exc_edges=False)
         if fn.name == '__iter__':
-            # characters come from iterchars (already filtered, never empty)
-            hooks.is_read = lambda fname, args: False
+            hooks.raw_reads = False     # characters come from iterchars (already filtered, never empty)
+        it = ReadInterp(model=m, scope=fn, hooks=hooks, max_iter=2, exc_edges=False, inline=2)
         outs = it.run_function(fn)
         chk.paths += len(outs)
         bad = sorted(set(hooks.bad))
         for c in uses:
             n_calls += 1
             hit = [b for b in bad if b[2] == c.lineno]
-            chk.verdict(R5, '%s :: %s' % (fn.qualname, text(c)), not hit,
+            chk.verdict(R5, '%s :: %s' % (fn.qualname, M.call_name(c)), not hit,
                         '%s is applied to a character read that can be empty at end of input '
                         '(no emptiness test dominates it): raises TypeError, e.g. for input ending in ^^'
                         % text(c), chk.where(fn, c), 'dominated by an emptiness test')
@@ -428,92 +459,58 @@ def r14_r15(chk, m, Tokenizer):
     R4 = chk.rule('R1.4', 'character reader: IGNORED/INVALID never yielded; ^^ only when the next '
                   'character repeats the first; decoded code is c-64 for c>=64 else c+64', 5)
     fn = m.func('plasTeX.Tokenizer', 'Tokenizer.iterchars')
-    Token = m.cls('plasTeX.Tokenizer', 'Token')
-    # (a) filtered categories
+
+    def run(reads, codes, high=None):
+        hooks = ReadHooks(m, Tokenizer, reads=reads, codes=codes, high=high)
+        hooks.keep = lambda ev: ev[0] in ('yield', 'continue', 'call')
+        it = ReadInterp(model=m, scope=fn, hooks=hooks, max_iter=1, exc_edges=False, inline=2)
+        outs = it.run_function(fn)
+        chk.paths += len(outs)
+        return outs
+
+    def yields(s):
+        out = []
+        for e in s.trace:
+            if e[0] == 'yield':
+                v = e[1]
+                if isinstance(v, tuple) and len(v) == 2:
+                    out.append((v[0], v[1].label if isinstance(v[1], A.Sym) else repr(v[1])))
+                else:
+                    out.append(('?', repr(v)))
+        return out
+
+    # (a) one character of each category: yielded once unless IGNORED/INVALID
     for code in range(16):
         if code == SUP:
             continue
-        hooks = ReadHooks(m, Tokenizer)
-        hooks.codes = [code]
-        hooks.keep = lambda ev: ev[0] in ('yield', 'continue')
-        it = A.Interp(model=m, scope=fn, hooks=hooks, max_iter=1, exc_edges=False)
-        outs = it.run_function(fn)
-        chk.paths += len(outs)
-        yielded = set()
-        for kind, s, v in outs:
-            if s.env.get('__reads', 0) == 0:
-                continue
-            ys = [e for e in s.trace if e[0] == 'yield']
-            # only look at paths where the first character was non-empty
-            first = s.env.get('token')
-            yielded.add(len(ys))
-        paths_nonempty = [s for kind, s, v in outs if s.env.get('__codes', 0) >= 1]
-        ycount = {len([e for e in s.trace if e[0] == 'yield']) for s in paths_nonempty}
-        want = {0} if code in (IGN, INV) else {1}
-        chk.verdict(R4, 'iterchars(code=%s)' % CC[code], ycount == want,
-                    'a character of category %s is yielded %s time(s) by the character reader (expected %s)'
-                    % (CC[code], sorted(ycount), sorted(want)), chk.where(fn), 'yield count %s' % sorted(ycount))
-    # (b) superscript handling
-    hooks = ReadHooks(m, Tokenizer, script={0: 'c0', 1: 'c1', 2: 'c2'})
-    hooks.codes = [SUP, LET]
-    it = A.Interp(model=m, scope=fn, hooks=hooks, max_iter=1, exc_edges=False)
-    outs = it.run_function(fn)
-    chk.paths += len(outs)
-    dec = []      # (assumptions, chr-argument) on paths that decode
-    plain = []
+        outs = run(['c0'], [code])
+        got = {tuple(yields(s)) for kind, s, v in outs if s.env.get('__codes', 0) >= 1}
+        want = {()} if code in (IGN, INV) else {((code, 'c0'),)}
+        chk.verdict(R4, 'iterchars(code=%s)' % CC[code], got == want,
+                    'a character of category %s is yielded as %s by the character reader (expected %s)'
+                    % (CC[code], sorted(got, key=repr), sorted(want, key=repr)), chk.where(fn), str(sorted(got, key=repr)))
+    # (b) superscript followed by a different character: pushed back, superscript yielded
+    outs = run(['c0', 'c1'], [SUP])
+    res = set()
     for kind, s, v in outs:
-        tr = s.trace
         if s.env.get('__codes', 0) < 1:
             continue
-        ass = {e[1]: e[2] for e in tr if e[0] == 'assume'}
-        chrs = [e for e in tr if e[0] == 'call' and e[1] == 'chr']
-        pushes = [e for e in tr if e[0] == 'call' and e[1] in ('self.pushChar', 'pushChar')]
-        ys = [e for e in tr if e[0] == 'yield']
-        if chrs:
-            dec.append((ass, chrs[0][2][0], ys))
-        elif s.env.get('__reads', 0) >= 2:
-            plain.append((ass, pushes, ys))
-    # decoding happens only under "second == first"
-    eq_ok = bool(dec) and all(any(re.fullmatch(r'next_char != token|token != next_char', k) and v is False
-                                   or re.fullmatch(r'next_char == token|token == next_char', k) and v is True
-                                   for k, v in a.items()) for a, _, _ in dec)
-    chk.verdict(R4, 'iterchars ^^: decode only when the second character repeats the first', eq_ok,
-                'the ^^ decoding arm is not guarded by equality of the two characters', chk.where(fn))
-    push_ok = bool(plain) and all(len(p) == 1 and len(y) == 1 for a, p, y in plain if not any('not' in k for k in a))
-    chk.verdict(R4, 'iterchars ^x: look-ahead character pushed back, superscript yielded', push_ok,
-                'when the character after a superscript character differs, it must be pushed back and the '
-                'superscript character yielded: %r' % [(len(p), len(y)) for a, p, y in plain], chk.where(fn))
-    forms = set()
-    for a, arg, ys in dec:
-        conds = {k: v for k, v in a.items() if re.search(r'\b(64|63)\b', k)}
-        forms.add((tuple(sorted(conds.items())), str(arg)))
-    ok = _decode_ok(forms)
-    chk.verdict(R4, 'iterchars ^^X: decoded character code', ok,
-                'decoded code must be c-64 when c>=64 and c+64 otherwise; found %s' % sorted(forms),
-                chk.where(fn), str(sorted(forms)))
-
-
-def _decode_ok(forms):
-    if not forms:
-        return False
-    seen = set()
-    for conds, arg in forms:
-        if not conds:
-            # single-expression idiom
-            return re.fullmatch(r'\(?\w+ \^ 64\)?', arg) is not None and len(forms) == 1
-        (ctext, cval), = conds if len(conds) == 1 else (conds[0],)
-        mm = re.fullmatch(r'(\w+) (>=|>|<|<=) (\d+)', ctext)
-        if not mm:
-            return False
-        var, op, k = mm.group(1), mm.group(2), int(mm.group(3))
-        if (op, k) in (('>=', 64), ('>', 63)):
-            high = cval
-        elif (op, k) in (('<', 64), ('<=', 63)):
-            high = not cval
-        else:
-            return False
-        want = '%s - 64' % var if high else '%s + 64' % var
-        if arg.replace('(', '').replace(')', '') != want:
-            return False
-        seen.add(high)
-    return seen == {True, False}
+        pushes = [e[2] for e in s.trace if e[0] == 'call' and e[1] == 'self.pushChar']
+        res.add((tuple(yields(s)), tuple(p[0].label if p and isinstance(p[0], A.Sym) else repr(p) for p in pushes), s.env.get('__chr', ())))
+    chk.verdict(R4, 'iterchars ^x: look-ahead character pushed back, superscript yielded', res == {(((SUP, 'c0'),), ('c1',), ())},
+                'a superscript character followed by a different character must be yielded as such and the look-ahead character '
+                'pushed back once; found (yields, pushed back, decoded) = %s' % sorted(res, key=repr), chk.where(fn), str(sorted(res, key=repr)))
+    # (c) ^^X: decoded with c-64 / c+64 and the category of the decoded character looked up again
+    for high, want_arg in ((True, 'ORD-64'), (False, 'ORD+64')):
+        outs = run(['c0', 'c0', 'c2'], [SUP, LET], high=high)
+        res = set()
+        for kind, s, v in outs:
+            if s.env.get('__codes', 0) < 1:
+                continue
+            pushes = [e for e in s.trace if e[0] == 'call' and e[1] == 'self.pushChar']
+            res.add((tuple(yields(s)), len(pushes), s.env.get('__chr', ())))
+        ok = res in ({(((LET, 'CHR(%s)' % want_arg),), 0, (want_arg,))}, {(((LET, 'CHR(ORD^64)'),), 0, ('ORD^64',))})
+        chk.verdict(R4, 'iterchars ^^X: decoded character code (code %s 64)' % ('>=' if high else '<'), ok,
+                    'for ^^X with a character code %s 64 the reader yields %s; expected one decoded character chr(c%s64) '
+                    'with its own category looked up again' % ('>=' if high else '<', sorted(res, key=repr), '-' if high else '+'), chk.where(fn), str(sorted(res, key=repr)))
+    # (d) ^^ decoding only when the second character repeats the first: covered by (b) [no decoding] and (c)
